@@ -59,6 +59,14 @@ fn cfg_for(config: &str) -> GenCfg {
     "bu-replay-thread" => { c.replays = 0b0100; c.bottom_up = 60; c.all_roots_td = true; c.big = true; }
     "bu-mixed-replay" => { c.replays = 0b1011; c.bottom_up = 50; c.td_between = true; }
     "bu-crash" => { c.crash = true; c.bottom_up = 50; c.all_roots_td = true; }
+    // Sessions that are used further after a build in them aborted.
+    "td-crash-samesession" => { c.crash = true; c.same_session = true; }
+    "bu-crash-samesession" => { c.crash = true; c.same_session = true; c.bottom_up = 50; c.td_between = true; }
+    "x-any-td-samesession" | "x-hidden-td-samesession" | "x-overlap-td-samesession" | "x-cycle-td-samesession" => { c.class = Class::X; c.same_session = true; }
+    "x-any-bu-samesession" | "x-hidden-bu-samesession" | "x-overlap-bu-samesession" | "x-cycle-bu-samesession" => { c.class = Class::X; c.same_session = true; c.bottom_up = 50; c.td_between = true; }
+    "x-any-crash-samesession" => { c.class = Class::X; c.crash = true; c.same_session = true; c.bottom_up = 30; c.td_between = true; }
+    "v-td-crash-samesession" => { c.class = Class::V; c.crash = true; c.same_session = true; }
+    "td-checkerr-crash-samesession" => { c.crash = true; c.check_errors = true; c.same_session = true; }
     // Bottom-up sessions with a top-down phase before the build, dropped builds and repeated builds (one session).
     "bu-insession" => { c.bottom_up = 70; c.td_between = true; c.in_session = true; }
     "bu-insession-allroots" => { c.bottom_up = 70; c.all_roots_td = true; c.in_session = true; }
@@ -150,7 +158,11 @@ impl Engine for BuildEngine {
     for k in scn.faults.keys() { let mut s = scn.clone(); s.faults.remove(k); c.push(s); }
     // Drop roots.
     for (i, st) in scn.steps.iter().enumerate() {
-      if let Step::TopDown { roots } = st { if roots.len() > 1 { for j in 0..roots.len() { let mut s = scn.clone(); if let Step::TopDown { roots } = &mut s.steps[i] { roots.remove(j); } c.push(s); } } }
+      if let Step::TopDown { roots, keep_going } = st {
+        if roots.len() > 1 { for j in 0..roots.len() { let mut s = scn.clone(); if let Step::TopDown { roots, .. } = &mut s.steps[i] { roots.remove(j); } c.push(s); } }
+        if *keep_going { let mut s = scn.clone(); if let Step::TopDown { keep_going, .. } = &mut s.steps[i] { *keep_going = false; } c.push(s); }
+      }
+      if let Step::BottomUp { keep_going: true, .. } = st { let mut s = scn.clone(); if let Step::BottomUp { keep_going, .. } = &mut s.steps[i] { *keep_going = false; } c.push(s); }
       if let Step::BottomUp { then_require, pre_require, shape, .. } = st {
         for j in 0..then_require.len() { let mut s = scn.clone(); if let Step::BottomUp { then_require, .. } = &mut s.steps[i] { then_require.remove(j); } c.push(s); }
         for j in 0..pre_require.len() { let mut s = scn.clone(); if let Step::BottomUp { pre_require, .. } = &mut s.steps[i] { pre_require.remove(j); } c.push(s); }
@@ -202,7 +214,7 @@ impl Engine for BuildEngine {
       if nt > 1 {
         let t = nt - 1;
         let used_by_ops = scn.program.tasks.iter().any(|td| refs(&td.ops, t, usize::MAX).0);
-        let used_by_steps = scn.steps.iter().any(|st| match st { Step::TopDown { roots } => roots.contains(&t), Step::BottomUp { then_require, pre_require, .. } => then_require.contains(&t) || pre_require.contains(&t), _ => false });
+        let used_by_steps = scn.steps.iter().any(|st| match st { Step::TopDown { roots, .. } => roots.contains(&t), Step::BottomUp { then_require, pre_require, .. } => then_require.contains(&t) || pre_require.contains(&t), _ => false });
         if !used_by_ops && !used_by_steps && scn.program.tasks[t].ops.is_empty() {
           let mut s = scn.clone();
           s.program.tasks.pop();
